@@ -1,6 +1,8 @@
 package core
 
 import (
+	"strings"
+
 	"github.com/jsightapi/jsight-schema-go-library/fs"
 
 	"github.com/jsightapi/jsight-api-go-library/catalog"
@@ -50,6 +52,17 @@ const (
 	tPathDir
 	tRequestObj
 	tTypeNested
+	tRespBare       // "201": a response without parameter (its body comes from a Body child)
+	tTitleBlank     // Title "  ": a title made of blanks only
+	tHeaders        // Headers with an object body (schema library)
+	tRespArr        // 200 [@l]: array of a user type (schema library)
+	tEnumNoName     // directives written without their required name
+	tServerNoName
+	tTypeNoName
+	tTagNoName
+	tPasteNoName
+	tTagsNoName
+	tMethodNoName
 	tOpen           // "(" on its own line: explicit context of the previous directive
 	tClose          // ")" on its own line
 	tIncludeFile    // INCLUDE inc.jst (present in the virtual file system of harnesses that set verifFiles)
@@ -76,7 +89,7 @@ func verifLetter(name string) string {
 func verifLine(t int) (string, string) {
 	l := ""
 	switch t {
-	case tServer, tURL, tGetPath, tTypeAny, tMacro, tPaste, tTag, tTags, tMethod, tDescription, tEnum, tTypeObj, tTypeAllOf, tRespRef, tURLParam, tTypeNested:
+	case tServer, tURL, tGetPath, tTypeAny, tMacro, tPaste, tTag, tTags, tMethod, tDescription, tEnum, tTypeObj, tTypeAllOf, tRespRef, tURLParam, tTypeNested, tRespArr:
 		l = verifLetter("l")
 	}
 	return verifLineWith(t, l), l
@@ -150,6 +163,28 @@ func verifLineWith(t int, l string) string {
 			next = "a"
 		}
 		return "TYPE @" + l + "\n{\n  \"nest" + l + "\": { // {allOf: \"@" + next + "\"}\n    \"m" + l + "\": 1\n  }\n}"
+	case tRespBare:
+		return "201"
+	case tTitleBlank:
+		return "Title \"  \""
+	case tHeaders:
+		return "Headers\n{\"h\": 1}"
+	case tRespArr:
+		return "200 [@" + l + "]"
+	case tEnumNoName:
+		return "ENUM\n[1, 2]"
+	case tServerNoName:
+		return "SERVER"
+	case tTypeNoName:
+		return "TYPE any"
+	case tTagNoName:
+		return "TAG"
+	case tPasteNoName:
+		return "PASTE"
+	case tTagsNoName:
+		return "Tags"
+	case tMethodNoName:
+		return "Method"
 	case tOpen:
 		return "("
 	case tClose:
@@ -198,6 +233,20 @@ func verifDocLines(menu []int, k int, header bool) (text string, lines []refLine
 		text += txt + "\n"
 	}
 	return
+}
+
+// verifBareResponsesWellFormed: a response without parameter is followed by a
+// schema body unless the next line starts with B, H, P or I; the template model
+// only covers the latter (Body / Headers children).
+func verifBareResponsesWellFormed(lines []refLine) bool {
+	for i, ln := range lines {
+		if ln.t == tRespBare {
+			if i+1 >= len(lines) || (lines[i+1].t != tBodyAny && lines[i+1].t != tHeaders) {
+				return false
+			}
+		}
+	}
+	return true
 }
 
 func verifRender(lines []refLine) string {
@@ -278,6 +327,9 @@ func verifSig(c *catalog.Catalog) []string {
 				if r.Body != nil {
 					line += " body format=" + string(r.Body.Format) + " notation=" + string(r.Body.Schema.Notation)
 				}
+				if r.Headers != nil {
+					line += " headers"
+				}
 				out = append(out, line)
 				if r.Body != nil {
 					out = append(out, verifSchemaSig(" response "+r.Code, r.Body.Schema)...)
@@ -348,6 +400,9 @@ func VerifH_PipelineTotal() {
 	if je != nil {
 		f := jerr.VerifFileOf(je)
 		verifrt.Assert("C02.pipeline.error-in-file", f != nil && int(je.Index()) <= len(f.Content()))
+		// a Go runtime fault must never come back dressed up as a diagnostic (the recover() sites
+		// around the schema library turn every panic that is an error into an error)
+		verifrt.Assert("C01.pipeline.no-runtime-fault-as-diagnostic", !strings.Contains(je.Msg, "runtime error"))
 		verifrt.Reach("C01.pipeline.rejected", true)
 		return
 	}
@@ -377,12 +432,19 @@ func VerifH_CatalogStructure() {
 		// with explicit parentheses: a URL-level Tags may then follow a (closed) method
 		menu = []int{tURL, tTags, tGet, tPost, tOpen, tClose}
 	}
+	if verifrt.Bound("MENU") == 3 {
+		// responses with repeated codes, bodies as children, headers (schema library for the Headers body)
+		menu = []int{tGetPath, tResp200, tResp404, tRespBare, tBodyAny, tHeaders}
+	}
 	text, lines := verifDocLines(menu, k, true)
-	if verifrt.Bound("MENU") >= 1 {
+	if verifrt.Bound("MENU") == 1 || verifrt.Bound("MENU") == 2 {
 		// both tags are declared up front, so that Tags directives at URL and method level are acceptable
 		pre := []refLine{{t: tJsight, parent: -1}, {t: tTag, letter: "a", parent: -1}, {t: tTag, letter: "b", parent: -1}}
 		lines = append(pre, lines[1:]...)
 		text = verifRender(lines)
+	}
+	if !verifBareResponsesWellFormed(lines) {
+		verifrt.Stop()
 	}
 	verifrt.Note("doc", text)
 	core, je := verifRun(text)
@@ -401,6 +463,10 @@ func VerifH_CatalogStructure() {
 	if len(got) == len(want) {
 		for i := range got {
 			verifrt.Assert("C04.structure.line", got[i] == want[i])
+			if strings.HasPrefix(want[i], "tag ") || strings.HasPrefix(want[i], " tag=") {
+				// which tags exist, what they list, and which tags an interaction carries (C19)
+				verifrt.Assert("C19.doc.tag-line", got[i] == want[i])
+			}
 		}
 	}
 	// C09: Title() accessor and id/key consistency
@@ -415,6 +481,18 @@ func VerifH_CatalogStructure() {
 		case *catalog.HTTPInteraction:
 			verifrt.Assert("C19.doc.at-least-one-tag", len(in.Tags) >= 1)
 			verifrt.Assert("C09.doc.id-is-key", in.Id == k.String())
+			for _, r := range in.Responses {
+				// every response of an accepted document has a body whose format matches its notation
+				ok := r.Body != nil && r.Body.Schema != nil
+				if ok {
+					f, err := catalog.SchemaSerializeFormat(r.Body.Schema.Notation)
+					ok = err == nil && f == r.Body.Format
+				}
+				verifrt.Assert("C09.doc.response-has-body", ok)
+			}
+			if in.Request != nil {
+				verifrt.Assert("C09.doc.request-has-body", in.Request.HTTPRequestBody != nil)
+			}
 		case *catalog.JsonRpcInteraction:
 			verifrt.Assert("C19.doc.at-least-one-tag", len(in.Tags) >= 1)
 			verifrt.Assert("C09.doc.id-is-key", in.Id == k.String())
@@ -426,6 +504,59 @@ func VerifH_CatalogStructure() {
 			nTags++
 		}
 	}
+	// C09: tags and interactions reference each other mutually (checked on the catalog itself)
+	core.catalog.Interactions.EachSafe(func(k catalog.InteractionID, v catalog.Interaction) {
+		var tags []catalog.TagName
+		switch in := v.(type) {
+		case *catalog.HTTPInteraction:
+			tags = in.Tags
+		case *catalog.JsonRpcInteraction:
+			tags = in.Tags
+		}
+		for _, tn := range tags {
+			t, ok := core.catalog.Tags.Get(tn)
+			listed := false
+			if ok {
+				if g, has := t.InteractionGroups[k.Protocol()]; has {
+					for _, id := range verifGroupIDs(g) {
+						if id == k.String() {
+							listed = true
+						}
+					}
+				}
+			}
+			verifrt.Assert("C09.doc.interaction-tag-listed-in-tag", ok && listed)
+		}
+	})
+	core.catalog.Tags.EachSafe(func(tn catalog.TagName, t *catalog.Tag) {
+		for _, proto := range []catalog.Protocol{catalog.HTTP, catalog.JsonRpc} {
+			g, has := t.InteractionGroups[proto]
+			if !has {
+				continue
+			}
+			for _, id := range verifGroupIDs(g) {
+				carries := false
+				core.catalog.Interactions.EachSafe(func(k catalog.InteractionID, v catalog.Interaction) {
+					if k.String() != id {
+						return
+					}
+					var tags []catalog.TagName
+					switch in := v.(type) {
+					case *catalog.HTTPInteraction:
+						tags = in.Tags
+					case *catalog.JsonRpcInteraction:
+						tags = in.Tags
+					}
+					for _, x := range tags {
+						if x == tn {
+							carries = true
+						}
+					}
+				})
+				verifrt.Assert("C09.doc.tag-member-carries-tag", carries)
+			}
+		}
+	})
 	verifrt.Reach("C19.doc.url-and-method-tags", nTags >= 2 && n >= 1)
 	verifrt.Reach("C04.structure.accepted-with-interaction", n >= 1)
 	verifrt.Reach("C04.structure.accepted", true)
